@@ -1003,11 +1003,12 @@ def ff(x):
     return repr(float(x))
 
 
-def topdown_impl(v, gp):
-    """Returns (op-dict fields, impl lines) of the real TopDownInitialize."""
+def topdown_impl(v, gp, extra_opts=None):
+    """Returns (op-dict fields, impl lines) of the real TopDownInitialize.  `gp` is handed over as it is (None = no
+    opt_params; a numpy.bool_ / int stands for the bool of the same truth value)."""
     from flatten import flatten, to_lines
     import qclib.state_preparation.topdown as mod
-    opts = None if gp is None else {"global_phase": gp}
+    opts = None if gp is None else dict({"global_phase": gp}, **(extra_opts or {}))
     with capture_topdown() as cap:
         gate = mod.TopDownInitialize(list(v), opt_params=opts)
         d = gate.definition
@@ -1053,9 +1054,9 @@ def topdown_impl(v, gp):
     return [m for _, m, _ in leaves], [a for _, _, a in leaves], lines
 
 
-def tie_topdown(ctx, v, gp, family):
+def tie_topdown(ctx, v, gp, family, extra_opts=None):
     try:
-        mag, arg, lines = topdown_impl(v, gp)
+        mag, arg, lines = topdown_impl(v, gp, extra_opts)
     except Exception:
         return      # reported by the oracle as `:raises`
     n = int(round(math.log2(len(v))))
@@ -1761,7 +1762,16 @@ def _div_opts(task, opts):
         p = o["partition"]
         o["partition"] = {"list": list(p), "tuple": tuple(p), "ndarray": np.array(p, dtype=np.int64),
                           "npint-list": [np.int64(a) for a in p], "npint32-tuple": tuple(np.int32(a) for a in p)}[pf]
+    for name, ftag in (task.get("opt_forms") or {}).items():
+        if o.get(name) is not None:
+            o[name] = OPT_FORM_CAST[ftag](o[name])
     return o
+
+
+# flag-form pass: the type a boolean / integer / float option VALUE is handed over in (task["opt_forms"] = {option: tag};
+# task["opts"] keeps the canonical Python bool / int / float, so that a payload stays JSON and `--replay` rebuilds the form)
+OPT_FORM_CAST = {"bool": bool, "npbool": np.bool_, "int": int, "npint": np.int64, "npint32": np.int32, "float": float,
+                 "npfloat": np.float64, "npfloat32": np.float32, "negzero": lambda x: -0.0 if x == 0 else float(x)}
 
 
 def _div_embed(width, parts):
@@ -1946,7 +1956,8 @@ def eval_div(task):
 
 def _div_callstr(task):
     cls, form = task["cls"], task["form"]
-    o = f"opt_params={task['opts']}" + (f" [partition as {task['part_form']}]" if task.get("part_form") else "")
+    o = f"opt_params={task['opts']}" + (f" [partition as {task['part_form']}]" if task.get("part_form") else "") + \
+        (f" [value types: {task['opt_forms']}]" if task.get("opt_forms") else "")
     if task["call"] == "static":
         e = task["entry"]
         return (f"{cls}.initialize(<{e['width']}-wire circuit{' (two registers)' if e.get('qform') == 'tworeg' else ''}>, "
@@ -1962,6 +1973,8 @@ def div_task(ctx, cls, opts, n, name, v, form="c128", call="ctor", upto=False, s
         key += f":w{e['width']}q{'-'.join(map(str, e['qubits'])) if e['qubits'] is not None else 'None'}{e.get('qform', 'int')}"
     if extra.get("part_form"):
         key += ":P-" + extra["part_form"]
+    if extra.get("opt_forms"):
+        key = "flagforms:" + key + ":F-" + ",".join(f"{a}={b}" for a, b in sorted(extra["opt_forms"].items()))
     t = {"div": True, "repo": framework.REPO, "cls": cls, "opts": opts, "n": n, "family": name, "form": form, "call": call,
          "re": [float(a.real) for a in v], "im": [float(a.imag) for a in v], "upto_phase": bool(upto), "key": key}
     t.update(extra)
@@ -2359,8 +2372,120 @@ def _diversity_tie(ctx):
             ctx.count("diversity:tie:svdplan")
 
 
+def _flagform_tasks(ctx):
+    """flag-form pass (section G).  Options of the dense initializers with a boolean value or a valid FALSY value:
+      TopDownInitialize   global_phase (bool)        True / False as numpy.bool_, int 1 / 0
+      LowRankInitialize   lr (int; 0 = no truncation) 0 as int, np.int64, np.int32 next to None, 2^n (ignored: out of range)
+                          partition                   [0] (qubit index 0 alone), [n - 1], [0, n - 1] in every container /
+                                                      integer type (list, tuple, ndarray, list of np.int64, tuple of np.int32)
+      BaaLowRankInitialize max_fidelity_loss (0 = exact) 0 as int, 0.0, -0.0, np.float64, np.float32, np.int64
+                          max_combination_size (0 = maximal; 1, 2) as int, np.int64, np.int32
+                          use_low_rank (bool)          True / False as numpy.bool_, int 1 / 0; x strategy
+      (iso_scheme / unitary_scheme / svd / scheme / lib / strategy are strings: no second form; UCG / UCGE options: C12)
+    through the constructor and the static initialize (keyword and positional opt_params, permuted host wires), n = 1 (the
+    n < 2 hand-over to TopDown), 2, 3, 4.  Oracle: the property's own (Statevector vs the vector, global phase included unless
+    global_phase is falsy).  Tie: TopDown trees / gate list / phase with the flag object vs the model asked with the Python
+    bool; LowRank plans with lr = np.int64(0) / np.int32(0) vs the model's lr = 0."""
+    r = ctx.nprng()
+    tasks = []
+    T = _div_task_sec("G")
+    j = 0
+
+    def entry(n, j):
+        return _div_entry(ctx, n, ["int", "qubit", "npint"][j % 3], positional=(j % 2 == 0))
+
+    def vec(n, fam="complex"):
+        return make_vector(r, n, fam)
+    # (A) TopDown global_phase
+    for n in (1, 2, 3, 4):
+        for gp in (True, False):
+            for ftag in ("npbool", "int"):
+                for extra in ({}, {"lib": "qclib"}):
+                    j += 1
+                    ctx.count(f"flagforms:global_phase:{ftag}:{gp}")
+                    opts = dict({"global_phase": gp}, **extra)
+                    kw = dict(upto=not gp, opt_forms={"global_phase": ftag})
+                    if extra:
+                        tasks.append(T(ctx, "TopDownInitialize", opts, n, "complex", vec(n), call="static", entry=entry(n, j), **kw))
+                    else:
+                        tasks.append(T(ctx, "TopDownInitialize", opts, n, "complex", vec(n), form=["c128", "list"][(j // 2) % 2], **kw))
+                flag = OPT_FORM_CAST[ftag](gp)
+                tie_topdown(ctx, vec(n), flag, f"flagforms:global_phase={ftag}({gp})")
+                if n == 2:
+                    tie_topdown(ctx, vec(n, "sparse"), flag, f"flagforms:global_phase={ftag}({gp}):lib", {"lib": "qclib"})
+    # (B) LowRank lr = 0 and the partition ends
+    for n in (1, 2, 3, 4):
+        for ftag in ("int", "npint", "npint32"):
+            for lr in (0, 2 ** n):
+                j += 1
+                ctx.count(f"flagforms:lr:{ftag}:{lr if lr == 0 else '2^n'}")
+                opts = {"lr": lr, "svd": ["auto", "regular"][j % 2]}
+                if j % 2:
+                    tasks.append(T(ctx, "LowRankInitialize", opts, n, "complex", vec(n), opt_forms={"lr": ftag}))
+                else:
+                    tasks.append(T(ctx, "LowRankInitialize", opts, n, "complex", vec(n), call="static", entry=entry(n, j),
+                                   opt_forms={"lr": ftag}))
+            if n >= 2 and ftag != "int":
+                v = vec(n)
+                part = [[0], [n - 1], None][j % 3]
+                if part is None or not in_band(n, v, part):
+                    iso, uni = PLESCH_SCHEMES[j % 2]
+                    # the one-element partition [0] / [n - 1] as ndarray / numpy ints (a one-element array [0] is FALSY)
+                    pobj = None if part is None else [np.array(part, dtype=np.int64), [np.int64(a) for a in part],
+                                                      tuple(np.int32(a) for a in part)][j % 3]
+                    op, lines = plan_impl(v, n, part, OPT_FORM_CAST[ftag](0), iso, uni, "auto", part_obj=pobj)
+                    ctx.tie(op, lines)
+                    ctx.count("flagforms:tie:lrplan:lr=" + ftag + ("" if part is None else f":partition={part}-as-{type(pobj).__name__}"))
+        if n >= 2:
+            for part in ([0], [n - 1]):
+                v = make_vector(r, n, "complex", part)
+                if not in_band(n, v, part):
+                    for pobj in (np.array(part, dtype=np.int64), [np.int64(part[0])]):
+                        op, lines = plan_impl(v, n, part, 0, "ccd", "qsd", "auto", part_obj=pobj)
+                        ctx.tie(op, lines)
+                        ctx.count(f"flagforms:tie:lrplan:partition={part}-as-{type(pobj).__name__}")
+            for part in ([0], [n - 1], [0, n - 1]):
+                if len(part) >= n:
+                    continue
+                for pf in ("list", "tuple", "ndarray", "npint-list", "npint32-tuple"):
+                    j += 1
+                    v = make_vector(r, n, "complex", part)
+                    ctx.count(f"flagforms:partition:{pf}:{'+'.join('0' if q == 0 else 'n-1' for q in part)}")
+                    opts = {"partition": part, "lr": 0}
+                    kw = dict(part_form=pf, opt_forms={"lr": ["int", "npint"][j % 2]})
+                    if j % 2:
+                        tasks.append(T(ctx, "LowRankInitialize", opts, n, "complex", v, **kw))
+                    else:
+                        tasks.append(T(ctx, "LowRankInitialize", opts, n, "complex", v, call="static", entry=entry(n, j), **kw))
+    # (A), (B) BAA: zero loss, maximal combination size, use_low_rank
+    loss_tags = ("int", "float", "negzero", "npfloat", "npfloat32", "npint")
+    for n in (1, 2, 3, 4):
+        for st in ("greedy", "brute_force", "split", "canonical"):
+            for ulr in (True, False):
+                for utag in ("npbool", "int"):
+                    j += 1
+                    if n == 4 and st in ("split", "canonical") and utag == "int":
+                        continue
+                    mcs = [0, 1, 2][j % 3]
+                    if mcs > max(1, n // 2):
+                        mcs = 0
+                    ltag, mtag = loss_tags[j % len(loss_tags)], ["int", "npint", "npint32"][(j // 2) % 3]
+                    for c in (f"flagforms:use_low_rank:{utag}:{ulr}", f"flagforms:max_fidelity_loss:{ltag}:0",
+                              f"flagforms:max_combination_size:{mtag}:{mcs}"):
+                        ctx.count(c)
+                    opts = {"max_fidelity_loss": 0, "strategy": st, "use_low_rank": ulr, "max_combination_size": mcs}
+                    of = {"max_fidelity_loss": ltag, "use_low_rank": utag, "max_combination_size": mtag}
+                    fam = ["complex", "product", "sparse", "real_signed"][j % 4]
+                    if j % 3:
+                        tasks.append(T(ctx, "BaaLowRankInitialize", opts, n, fam, vec(n, fam), opt_forms=of))
+                    else:
+                        tasks.append(T(ctx, "BaaLowRankInitialize", opts, n, fam, vec(n, fam), call="static", entry=entry(n, j),
+                                       opt_forms=of))
+    return tasks
+
+
 def _diversity_oracle(ctx):
-    tasks = _diversity_oracle_tasks(ctx)
+    tasks = _diversity_oracle_tasks(ctx) + _flagform_tasks(ctx)
     run_div_tasks(ctx, tasks)
     ctx.notes.append("input diversity (_diversity_*): every class x documented option values x {python list, tuple, list of numpy "
                      "scalars (64 / 32 bit), complex128, complex64, float64, float32, int64, all-int lists, mixed int/complex lists} "
